@@ -26,7 +26,7 @@ ASSUMPTIONS = ['bootloader protocol: 0x10 info, 0x12 mapping, 0x14 load buffer (
 REQUIRED = ['mon.flashes_completed', 'mon.images_compared', 'mon.load_buffer_packets', 'mon.too_large_refused',
             'mon.reply_scripts', 'mon.aborted_after_failure', 'mon.page_override', 'mon.exact_multiples',
             'mon.flashes_with_progress_callback', 'mon.late_answer_then_failing_write',
-            'mon.second_flash_with_the_same_bootloader', 'mon.unanswered_write_on_a_busy_downlink',
+            'mon.second_flash_with_the_same_bootloader', 'mon.flash_at_the_start_page_after_one_at_an_override_page', 'mon.unanswered_write_on_a_busy_downlink',
             'mon.two_target_sessions_with_duplicated_info_answers', 'mon.packages_flashed',
             'mon.packages_that_update_the_soft_device']
 EXHAUSTIVE = {'quick': False, 'thorough': False}
@@ -294,7 +294,12 @@ def flash_once(ctx, tid, ps, bp, fp, sp, length, override, script, rnd, label):
         ctx.violate('flash:uploaded-bytes-do-not-cover-the-image', dict(info_d, covered=len(cover)), replay=rp)
     # the same Bootloader object flashes a second, different image of another length (firmware, then a deck image...)
     if not script and length % 3 == 0:
-        length2 = max(1, min((fp - start) * ps, (length * 7) // 5 + 1 if length % 2 else max(1, length // 2)))
+        # (a flash to an override page - a staged bootloader - is followed by one to the target's own start page)
+        override2 = override if (override is None or (length // 3) % 4 == 0) else None
+        if override2 != override:
+            ctx.count('mon.flash_at_the_start_page_after_one_at_an_override_page')
+        start2 = lo2 = sp if override2 is None else override2
+        length2 = max(1, min((fp - start2) * ps, (length * 7) // 5 + 1 if length % 2 else max(1, length // 2)))
         image2 = bytes((b ^ 0x5A) for b in rnd.randbytes(length2))
         tgt.flash[:] = tgt.flash0
         tgt.written.clear()
@@ -303,7 +308,7 @@ def flash_once(ctx, tid, ps, bp, fp, sp, length, override, script, rnd, label):
         old = sys.stdout
         sys.stdout = io.StringIO()
         try:
-            bl._internal_flash(FlashArtifact(image2, art.target, None), page_override=override)
+            bl._internal_flash(FlashArtifact(image2, art.target, None), page_override=override2)
         except Exception as e:  # noqa
             exc2 = e
         finally:
@@ -311,8 +316,8 @@ def flash_once(ctx, tid, ps, bp, fp, sp, length, override, script, rnd, label):
         ctx.evals()
         ctx.count('mon.second_flash_with_the_same_bootloader')
         np2 = (length2 - 1) // ps + 1
-        if exc2 is not None or tgt.bad or bytes(tgt.flash[lo * ps:lo * ps + length2]) != image2 or \
-                any(p < lo or p >= lo + np2 for p in tgt.written):
+        if exc2 is not None or tgt.bad or bytes(tgt.flash[lo2 * ps:lo2 * ps + length2]) != image2 or \
+                any(p < lo2 or p >= lo2 + np2 for p in tgt.written):
             ctx.violate('flash:second-flash-with-the-same-object-wrong', dict(info_d, second_length=length2, raised=repr(exc2),
                                                                            bad=[str(b) for b in tgt.bad[:2]]), replay=rp)
     return (len(loads), len(writes))
